@@ -70,14 +70,16 @@ class Check(c01.Check):
 
     def configs(self):
         seeds = ['0', '1', '7'] + (['2', '3', '12345'] if self.tier == 'thorough' else [])
-        cfg = [('nrt', s, 3 if s == '1' else 0) for s in seeds]
+        cfg = [('nrt', s, {'1': 3, '7': 2}.get(s, 0)) for s in seeds]
         cfg.append(('rt', '0', 0))
         return cfg
 
     def impl(self, cases):
         runs = {}
         for mode, hs, threads in self.configs():
-            res, err = common.run_impl('c20', 'run', {'cases': cases, 'mode': mode, 'threads': threads},
+            res, err = common.run_impl('c20', 'run', {'cases': cases, 'mode': mode, 'threads': threads,
+                                                      'thread_cases': 200 if self.tier == 'quick' else 1500,
+                                                      'thread_seconds': 6 if self.tier == 'quick' else 40},
                                        timeout=3000, extra_env={'PYTHONHASHSEED': hs})
             if res is None:
                 self.notes.append(f'{mode}/{hs}: {err}')
@@ -110,6 +112,8 @@ class Check(c01.Check):
         for k, v in io['all'].items():
             for which in ('first', 'second', 'threaded'):
                 got = v.get(which)
+                if which == 'threaded' and got is None:
+                    continue
                 if got is not None and got != ref:
                     return {'what': f'build under {k} ({which}) differs from the reference build: '
                                     f'{got[:120]} vs {ref[:120]}', 'signature': f'c20:nondeterministic:{which}'}
